@@ -56,7 +56,7 @@ CfgRelax == Get(cfg, "relax", 0) = 1
 ModeOf(m) == IF m = "r" THEN SFM_READ ELSE IF m = "w" THEN SFM_WRITE ELSE SFM_RDWR
 
 \* observation of a data-path call, from the event
-ObsOf(e) == [ret |-> Get(e, "ret", 0), out |-> Get(e, "out", <<>>), tz |-> Get(e, "tz", 1), guard |-> Get(e, "guard", 1),
+ObsOf(e) == [ret |-> Get(e, "ret", 0), out |-> Get(e, "out", <<>>), outn |-> Get(e, "outn", Len(Get(e, "out", <<>>))), tz |-> Get(e, "tz", 1), guard |-> Get(e, "guard", 1),
              er |-> e.st.er, rp |-> e.st.rp, wp |-> e.st.wp, fr |-> e.st.fr]
 
 CallOf(e) == CASE e.op = "read"  -> [op |-> "read", T |-> e.T, unit |-> e.unit, n |-> e.n]
@@ -89,17 +89,19 @@ OurIds(s) == {s.rch[i].id : i \in 1..Len(s.rch)}
 WithId(q, id) == SelectSeq(q, LAMBDA c : c.id = id)
 
 \* sf_get_chunk_iterator: by id -> NULL iff no stored chunk has that id
-ChItOK(s, e) == e.byid = 1 => (e.null = 1) = (WithId(s.rch, e.id) = <<>>)
+ChItOK(s, e) == s.relax \/ (e.byid = 1 => (e.null = 1) = (WithId(s.rch, e.id) = <<>>))
 ChItPost(s, e) ==
+    IF s.relax THEN s ELSE
     [s EXCEPT !.it = IF e.null = 1 THEN [mode |-> "none"]
                      ELSE [mode |-> IF e.byid = 1 THEN "id" ELSE "all", q |-> IF e.byid = 1 THEN WithId(s.rch, e.id) ELSE s.rch,
                            k |-> 0, fresh |-> TRUE]]
 \* sf_next_chunk_iterator: NULL only after every expected chunk has been visited; by id it is NULL exactly then
 ChNextOK(s, e) ==
-    IF s.it.mode = "none" THEN e.null = 1
+    IF s.relax THEN TRUE
+    ELSE IF s.it.mode = "none" THEN e.null = 1
     ELSE IF e.null = 1 THEN s.it.k = Len(s.it.q)
     ELSE s.it.mode = "id" => s.it.k < Len(s.it.q)
-ChNextPost(s, e) == [s EXCEPT !.it = IF e.null = 1 \/ s.it.mode = "none" THEN [mode |-> "none"] ELSE [@ EXCEPT !.fresh = TRUE]]
+ChNextPost(s, e) == IF s.relax THEN s ELSE [s EXCEPT !.it = IF e.null = 1 \/ s.it.mode = "none" THEN [mode |-> "none"] ELSE [@ EXCEPT !.fresh = TRUE]]
 
 \* sf_get_chunk_size / sf_get_chunk_data at the current position
 ChunkMatches(c, e) ==
@@ -108,12 +110,13 @@ ChunkMatches(c, e) ==
     /\ key \in DOMAIN aux.chexp /\ aux.chexp[key] = e.dig            \* payload bytes (zero padded), at most buflen of them
 ChGetOK(s, e) ==
     /\ e.guard = 1                                                    \* never more than the caller's datalen bytes
-    /\ IF s.it.mode = "none" THEN e.r2 # 0
+    /\ IF s.relax THEN TRUE                                           \* hostile input: whatever chunks it has
+       ELSE IF s.it.mode = "none" THEN e.r2 # 0
        ELSE IF s.it.mode = "all" /\ e.id \notin OurIds(s) THEN TRUE   \* one of the container's own chunks
        ELSE LET idx == IF s.it.fresh THEN s.it.k + 1 ELSE s.it.k IN
             idx >= 1 /\ idx <= Len(s.it.q) /\ ChunkMatches(s.it.q[idx], e)
 ChGetPost(s, e) ==
-    IF s.it.mode = "none" \/ (s.it.mode = "all" /\ e.id \notin OurIds(s)) THEN s
+    IF s.relax \/ s.it.mode = "none" \/ (s.it.mode = "all" /\ e.id \notin OurIds(s)) THEN s
     ELSE [s EXCEPT !.it = [@ EXCEPT !.k = IF s.it.fresh THEN @ + 1 ELSE @, !.fresh = FALSE]]
 
 -----------------------------------------------------------------------------
@@ -158,7 +161,7 @@ HasState(e) == Has(e, "st")
 NewHandle(e, cid, B, relax) ==
     [life |-> "open", mode |-> ModeOf(e.mode), ch |-> e.ch, fmt |-> e.fmt, rate |-> e.rate,
      B |-> B, gran |-> IsGranular(e.fmt), skb |-> (e.st.sk # 0),      \* (SF_INFO.seekable is zeroed for write handles; the handle itself knows)
-     frames |-> IF ModeOf(e.mode) = SFM_WRITE THEN 0 ELSE e.st.fr, rpos |-> e.st.rp, wpos |-> e.st.wp, err |-> (e.st.er # 0),
+     frames |-> IF ModeOf(e.mode) = SFM_WRITE THEN 0 ELSE IF relax THEN Min(e.st.fr, 1000000) ELSE e.st.fr, rpos |-> e.st.rp, wpos |-> e.st.wp, err |-> (e.st.er # 0),
      hw |-> (e.st.hw # 0), auto |-> FALSE, relax |-> relax, cid |-> cid, fid |-> e.fid, route |-> e.route, meta |-> <<>>,
      wch |-> <<>>, rch |-> <<>>, it |-> [mode |-> "none"]]
 
@@ -177,7 +180,7 @@ OpenNewOK(e) ==
 
 \* existing file produced earlier in this scenario (closed file, or crash image)
 OpenWrittenOK(e, f) ==
-    LET info == [ch |-> e.ch, fmt |-> e.fmt, rate |-> e.rate, fr |-> e.fr, frbig |-> e.frbig, sec |-> e.sec] IN
+    LET info == [ch |-> e.ch, fmt |-> e.fmt, rate |-> e.rate, fr |-> e.fr, frneg |-> e.frneg, sec |-> e.sec] IN
     /\ e.ok = 1 /\ e.gerr = 0 /\ e.st.er = 0
     /\ Sane(info)
     /\ InfoMatches(f.fmt, f.ch, f.rate, info)
@@ -189,7 +192,7 @@ OpenWrittenOK(e, f) ==
 
 OpenHostileOK(e) ==
     IF e.ok = 0 THEN OpenFailedOK(e)
-    ELSE Sane([ch |-> e.ch, fmt |-> e.fmt, rate |-> e.rate, fr |-> e.fr, frbig |-> e.frbig, sec |-> e.sec])
+    ELSE Sane([ch |-> e.ch, fmt |-> e.fmt, rate |-> e.rate, fr |-> e.fr, frneg |-> e.frneg, sec |-> e.sec])
 
 FileOf(e) == files[e.fid]
 
@@ -223,7 +226,8 @@ OpenEffect(e) ==
          /\ cont' = [cont EXCEPT ![f.cid] = cv2]
          /\ ncid' = ncid
     ELSE /\ hs' = [hs EXCEPT ![h] = NewHandle(e, ncid, B, relax)]
-         /\ LET n == IF e.mode = "w" THEN 0 ELSE e.st.fr * e.ch IN
+         \* (hostile input may claim any frame count: no content map is kept for it, relaxed handles neither compare nor learn data)
+         /\ LET n == IF e.mode = "w" \/ relax THEN 0 ELSE e.st.fr * e.ch IN
             cont' = [cont EXCEPT ![ncid] = [NewContent EXCEPT !.val = Rep(0, n), !.kt = Rep("-", n)]]
          /\ ncid' = ncid + 1
 
